@@ -6,6 +6,9 @@ use crate::engine::*;
 pub mod c01;
 pub mod c07;
 pub mod c08;
+pub mod c09;
+pub mod c10;
+pub mod c11;
 
 pub struct Prop {
     pub id: &'static str,
@@ -17,6 +20,9 @@ pub const PROPS: &[Prop] = &[
     Prop { id: "C01", run: c01::run, eval: c01::eval },
     Prop { id: "C07", run: c07::run, eval: c07::eval },
     Prop { id: "C08", run: c08::run, eval: c08::eval },
+    Prop { id: "C09", run: c09::run, eval: c09::eval },
+    Prop { id: "C10", run: c10::run, eval: c10::eval },
+    Prop { id: "C11", run: c11::run, eval: c11::eval },
 ];
 
 pub fn find(id: &str) -> Option<&'static Prop> {
